@@ -8,11 +8,20 @@ Model of the failure-handling decision logic of cascade (property C05):
   * `healthcheck`    : `executor/executor.py::Executor.healthcheck` as a function of the child exit
                        codes, interpreted through a `HealthTable` (generated from the source by the
                        `health` translator: which predicate decides "failed", does the branch `raise`).
-  * `terminate`      : `Executor.terminate` (guard `terminating`; per worker: WorkerShutdown, bounded
-                       join, kill if still alive; shm shutdown if alive; data server kill if alive).
-  * `tick`           : one iteration of `Executor.recv_loop`: forward failures, `break` on
+  * `terminateWith`  : `Executor.terminate` as a PROGRAM against an explicit environment `Os` (guard `terminating`;
+                       per worker: WorkerShutdown, bounded join, kill if still alive; shm server: shutdown command with a
+                       timeout, bounded join, kill if it did not answer or is still alive; data server: kill if alive).
+                       What the children / the OS do in reaction is NOT built into the program: it is the `Os` argument
+                       (`posix` = the standard one; `terminate := terminateWith posix` is what `tick` uses), and the
+                       teardown theorems state what they need of it as hypotheses.
+  * `ShmEntry`, `shmShutdown`, `shmDies` : `shm/server.py::entrypoint` + `LocalServer.start/atexit/__init__` as far
+                       as the END of the server process goes (which ways out of the request loop there are, whether
+                       the exit handler runs on each of them, exit code), interpreted through a table generated
+                       from the source by the `shm_entry` translator.
+  * `tick`, `tickEnv`: one iteration of `Executor.recv_loop`: forward failures, `break` on
                        ExecutorShutdown, healthcheck unless terminating, on any exception
-                       `ExecutorFailure` + `terminate`.
+                       `ExecutorFailure` + `terminate`; `tickEnv` adds the two inputs of the environment: heartbeat
+                       due (registration re-sent by a healthy healthcheck), `sender.maybe_retry()` raises.
   * `scanBatch`, `recvEvents`, `shutdownLoop` : `executor/bridge.py::Bridge.recv_events / shutdown`.
   * `runLoop`        : `controller/impl.py::run` with the scheduler abstracted to "tasks remaining" and
                        "requested outputs still None" (`has_computable or has_awaitable`),
@@ -72,6 +81,14 @@ inductive Handle
   | proc (exit : Option Int) (stuck : Bool)      -- exit code (none = alive); `stuck`: alive but will never read its socket again
 deriving DecidableEq, Repr
 
+/-- how a LIVE shm server will react to the executor's shutdown command (an attribute of the environment, carried in
+the state like `stuck` of a worker handle) -/
+inductive ShmMode
+  | ok        -- answers, leaves its request loop, exits
+  | mute      -- never answers: frozen, or killed between reading the command and answering it
+  | lingers   -- answers, but does not exit within the grace
+deriving DecidableEq, Repr
+
 structure ExecSt where
   host : String
   workers : List (String × Handle)     -- in dict order
@@ -79,6 +96,7 @@ structure ExecSt where
   data : Option Int                    -- exit code of the data server (none = alive)
   terminating : Bool
   segments : List String := []         -- /dev/shm segments of this host's shm server
+  shmMode : ShmMode := .ok             -- reaction of the shm server (if alive) to the shutdown command
 deriving DecidableEq, Repr
 
 inductive HealthErr
@@ -136,7 +154,7 @@ deriving DecidableEq, Repr
 
 inductive TermAct
   | workerShutdown (w : String) | workerJoin (w : String) | workerKill (w : String)
-  | shmShutdown | shmJoin | dataKill
+  | shmShutdown | shmJoin | shmKill | dataKill
 deriving DecidableEq, Repr
 
 inductive EOut
@@ -170,34 +188,140 @@ def workerBody (w : String) (pubs : List EMsg) : TaskOutcome → WorkerRes
 
 /-! ## terminate -/
 
-def termWorker : String × Handle → List TermAct × (String × Handle)
+/-- The ENVIRONMENT of `Executor.terminate`: how the children and the OS react to the executor's teardown actions.
+Nothing in here is code of the repository. `terminateWith` is the executor's PROGRAM (which action it takes next,
+given what it observes: `is_alive()` after a bounded `join`, an answer or a timeout of the shm shutdown command);
+what the teardown theorems need of the environment are explicit hypotheses on an `Os` (Props/C05.lean: `KillWorks`,
+`ShmConforms`). -/
+structure Os where
+  /-- exit code of a LIVE worker after `WorkerShutdown` was sent and `join(worker_shutdown_grace_s)` has returned;
+  argument: is the worker stuck (it will never read its socket again); `none`: still alive -/
+  workerExit : Bool → Option Int
+  /-- exit code the executor sees after `kill()` + `join()`; `none`: the process is still there -/
+  killed : Option Int
+  /-- does the shm server answer the shutdown command within `shm_shutdown_grace_s` -/
+  shmReply : ShmMode → Bool
+  /-- after an answered shutdown command and `join(shm_shutdown_grace_s)`: segments left, exit code (`none`: still alive) -/
+  shmExit : ShmMode → List String → List String × Option Int
+
+/-- the standard environment: a worker that is not stuck reads the shutdown and exits with 0; SIGKILL ends any process;
+a shm server in mode `ok` answers, unlinks and exits with 0 (= `shmShutdown` on the table generated from
+shm/server.py: theorem `c05_terminate_matches_shm_server`), a mute one never answers, a lingering one never exits -/
+def posix : Os :=
+  { workerExit := fun stuck => if stuck then none else some 0,
+    killed := some (-9),
+    shmReply := fun m => m != .mute,
+    shmExit := fun m segs => match m with | .ok => ([], some 0) | _ => (segs, none) }
+
+/-- per worker: `callback(WorkerShutdown)`, `proc.join(grace)`, `if proc.is_alive(): proc.kill(); proc.join()` -/
+def termWorkerWith (os : Os) : String × Handle → List TermAct × (String × Handle)
   | (w, .notStarted) => ([], (w, .notStarted))
   | (w, .proc (some c) s) => ([.workerShutdown w, .workerJoin w], (w, .proc (some c) s))
-  | (w, .proc none false) => ([.workerShutdown w, .workerJoin w], (w, .proc (some 0) false))
-  | (w, .proc none true) => ([.workerShutdown w, .workerJoin w, .workerKill w, .workerJoin w], (w, .proc (some (-9)) true))
+  | (w, .proc none s) =>
+    match os.workerExit s with
+    | some c => ([.workerShutdown w, .workerJoin w], (w, .proc (some c) s))
+    | none => ([.workerShutdown w, .workerJoin w, .workerKill w, .workerJoin w], (w, .proc os.killed s))
 
-/-- `Executor.terminate`. A live shm server answers the shutdown command, unlinks its segments and
-exits with 0; the data server is killed. -/
-def terminate (st : ExecSt) : List TermAct × ExecSt :=
+/-- shm server: `if is_alive(): try: shm_client.shutdown(grace); join(grace) except: ..; if is_alive(): kill(); join()`.
+Returns actions, exit code afterwards, segments afterwards. -/
+def termShmWith (os : Os) (st : ExecSt) : List TermAct × Option Int × List String :=
+  match st.shm with
+  | some c => ([], some c, st.segments)
+  | none =>
+    if os.shmReply st.shmMode then
+      let r := os.shmExit st.shmMode st.segments
+      match r.2 with
+      | some c => ([.shmShutdown, .shmJoin], some c, r.1)
+      | none => ([.shmShutdown, .shmJoin, .shmKill, .shmJoin], os.killed, r.1)
+    else ([.shmShutdown, .shmKill, .shmJoin], os.killed, st.segments)   -- the command times out: no join before the kill
+
+/-- data server: `if is_alive(): kill()` -/
+def termDataWith (os : Os) (st : ExecSt) : List TermAct × Option Int :=
+  match st.data with
+  | some c => ([], some c)
+  | none => ([.dataKill], os.killed)
+
+/-- `Executor.terminate` as a program against the environment `os` -/
+def terminateWith (os : Os) (st : ExecSt) : List TermAct × ExecSt :=
   if st.terminating then ([], st) else
-  let ws := st.workers.map termWorker
-  let shmActs : List TermAct := if st.shm.isNone then [.shmShutdown, .shmJoin] else []
-  let dataActs : List TermAct := if st.data.isNone then [.dataKill] else []
-  (ws.flatMap (·.1) ++ shmActs ++ dataActs,
-   { st with workers := ws.map (·.2),
-             shm := some (st.shm.getD 0),
-             data := some (st.data.getD (-9)),
-             segments := if st.shm.isNone then [] else st.segments,
-             terminating := true })
+  let ws := st.workers.map (termWorkerWith os)
+  let sh := termShmWith os st
+  let da := termDataWith os st
+  (ws.flatMap (·.1) ++ sh.1 ++ da.1,
+   { st with workers := ws.map (·.2), shm := sh.2.1, data := da.2, segments := sh.2.2, terminating := true })
 
-/-- how the shm server can die while the executor lives -/
-inductive ShmDeath | sigterm | sigkill
+/-- `Executor.terminate` in the standard environment (what `tick` uses) -/
+def terminate (st : ExecSt) : List TermAct × ExecSt := terminateWith posix st
+
+/-! ## the shm server process (`cascade.shm.server.entrypoint`, `LocalServer`) -/
+
+/-- the ways out of `LocalServer.start()` -/
+inductive StartExit
+  | returned     -- the request loop is left by `break` (ShutdownCommand)
+  | raised       -- an `Exception` escapes the request loop: `receive()`/`api.deser` on an undecodable datagram,
+                 -- `respond()`, a socket closed under `recvfrom` — all outside the per-request `try`
 deriving DecidableEq, Repr
 
-/-- SIGTERM runs the handler (`Manager.atexit` unlinks everything, exit code 0); SIGKILL cannot be handled -/
-def shmDies (st : ExecSt) : ShmDeath → ExecSt
-  | .sigterm => { st with shm := some 0, segments := [] }
+/-- what `entrypoint` does after `server.start()` was left in one way -/
+structure EntryRow where
+  exit : StartExit
+  goesOn : Bool        -- `entrypoint` ends normally on this path (for `raised`: the exception is caught and not re-raised):
+                       -- process exit code 0, otherwise 1
+  atexit : Bool        -- `server.atexit(..)` is executed on this path
+deriving DecidableEq, Repr
+
+/-- shape of cascade/shm/server.py (generated from its AST: Gen/ShmEntry.lean) -/
+structure ShmEntry where
+  rows : List EntryRow
+  shutdownBreaks : Bool      -- `LocalServer.start`: the ShutdownCommand branch leaves the loop
+  sigtermHandler : Bool      -- `LocalServer.__init__`: `signal.signal(SIGTERM, self.atexit)`
+  sigintHandler : Bool       -- same for SIGINT
+  atexitUnlinks : Bool       -- `LocalServer.atexit` calls `self.manager.atexit()` unconditionally (then closes the socket)
+deriving DecidableEq, Repr
+
+/-- the exit handler has run (and has unlinked every segment: Props/C05Shm.lean) once `start()` was left by `x` -/
+def ShmEntry.cleansOn (e : ShmEntry) (x : StartExit) : Bool :=
+  e.atexitUnlinks && e.rows.any (fun r => r.exit == x && r.atexit)
+
+/-- exit code of the server process once `start()` was left by `x` -/
+def ShmEntry.codeOn (e : ShmEntry) (x : StartExit) : Int :=
+  if e.rows.any (fun r => r.exit == x && r.goesOn) then 0 else 1
+
+/-- side condition of the segment theorems: the exit handler runs on EVERY path out of `server.start()`, it unlinks,
+the shutdown command leaves the loop, and both signal handlers are the exit handler -/
+def entryClean (e : ShmEntry) : Bool :=
+  [StartExit.returned, .raised].all e.cleansOn && e.shutdownBreaks && e.sigtermHandler && e.sigintHandler
+
+/-- the shm server is sent the ShutdownCommand (`Executor.terminate`, shm alive): segments left, exit code
+(`none`: the server keeps serving, `shm_process.join()` would block) -/
+def shmShutdown (e : ShmEntry) (segs : List String) : List String × Option Int :=
+  if e.shutdownBreaks then (if e.cleansOn .returned then [] else segs, some (e.codeOn .returned))
+  else (segs, none)
+
+/-- how the shm server can die while the executor lives -/
+inductive ShmDeath
+  | sigterm | sigint     -- a handled signal
+  | sigkill              -- cannot be handled
+  | loopException        -- the request loop raises (e.g. ONE undecodable datagram on the shm port)
+deriving DecidableEq, Repr
+
+/-- a handled signal: the handler (`LocalServer.atexit`) unlinks and closes the socket under the pending `recvfrom`,
+which then raises: `start()` is left by `raised`. Without a handler the default action kills the process. -/
+def shmSignalled (e : ShmEntry) (st : ExecSt) (handler : Bool) (signo : Int) : ExecSt :=
+  if handler then
+    { st with shm := some (e.codeOn .raised),
+              segments := if e.atexitUnlinks then [] else st.segments }
+  else { st with shm := some (-signo) }
+
+/-- SIGTERM/SIGINT run the handler (`Manager.atexit` unlinks everything, exit code 0); SIGKILL cannot be handled;
+an exception out of the request loop is caught by `entrypoint`, which runs the exit handler and returns (exit code 0) —
+all as far as the generated table `e` says so -/
+def shmDies (e : ShmEntry) (st : ExecSt) : ShmDeath → ExecSt
+  | .sigterm => shmSignalled e st e.sigtermHandler 15
+  | .sigint => shmSignalled e st e.sigintHandler 2
   | .sigkill => { st with shm := some (-9) }
+  | .loopException =>
+    { st with shm := some (e.codeOn .raised), segments := if e.cleansOn .raised then [] else st.segments }
 
 /-! ## one iteration of `Executor.recv_loop` -/
 
@@ -248,6 +372,24 @@ def tick (t : HealthTable) (st : ExecSt) (inbox : List EMsg) : ExecSt × List EO
     let tm := terminate r.1
     (tm.2, r.2.1 ++ [.toController (.executorFailure st.host)] ++ tm.1.map .act)
   else (r.1, r.2.1)
+
+/-- `tick` with the two inputs of the environment that `tick` fixes to `false`: the heartbeat watcher reports a breach
+(a `healthcheck` that found nothing wrong then re-sends the registration as heartbeat), and `sender.maybe_retry()`
+raises because a message to the controller ran out of its retry budget (C06). The for-loop's exception skips both;
+`maybe_retry` runs even after a clean ExecutorShutdown (`break`), healthcheck and heartbeat do not. -/
+def tickEnv (t : HealthTable) (st : ExecSt) (inbox : List EMsg) (hbDue retryRaises : Bool) : ExecSt × List EOut :=
+  if st.terminating then (st, []) else
+  let r := processMsgs st inbox
+  let fail (out : List EOut) : ExecSt × List EOut :=
+    let tm := terminate r.1
+    (tm.2, out ++ [.toController (.executorFailure st.host)] ++ tm.1.map .act)
+  match r.2.2 with
+  | .raised => fail r.2.1
+  | _ =>
+    if !r.1.terminating && (healthcheck t r.1).isSome then fail r.2.1
+    else
+      let hb : List EOut := if !r.1.terminating && hbDue then [.toController (.registration st.host)] else []
+      if retryRaises then fail (r.2.1 ++ hb) else (r.1, r.2.1 ++ hb)
 
 def EOut.ctrl? : EOut → Option CMsg
   | .toController m => some m
